@@ -470,3 +470,54 @@ func checkSiblingComponents(c *Ctx, f *FC) {
 		r.Undecided("C02.a2", "-", "arms", "fc", sprintf("%d component-carrying arms compared; 7 were confirmed by hand", n))
 	}
 }
+
+// C02.c2 — a type-variable generator that is handed to a function is used by it.
+// Fresh instantiation (every reference to a generic function, every literal of a generic record gets its own
+// inference variables) is implemented by threading a generator `() -> TypeVar`.  A function that receives the
+// generator and neither applies it nor passes it on has stopped instantiating freshly — typically by reusing
+// the declared type-parameter names, which conflates two uses inside one definition.
+var generatorExceptions = map[string]string{
+	"emptyVarFac": "the placeholder factory returned by a failed lookup; it panics when called",
+}
+
+func checkGeneratorsUsed(c *Ctx, f *FC) {
+	r := c.R
+	isGen := func(t types.Type) bool {
+		sig, ok := t.Underlying().(*types.Signature)
+		if !ok || sig.Params().Len() != 0 || sig.Results().Len() != 1 {
+			return false
+		}
+		n, ok := sig.Results().At(0).Type().(*types.Named)
+		return ok && n.Obj().Name() == "TypeVar" && n.Obj().Pkg() != nil && n.Obj().Pkg().Path() == f.Path
+	}
+	n := 0
+	for _, fn := range f.Prog.Funcs {
+		if !fn.Generated {
+			continue
+		}
+		for i, p := range fn.Params {
+			if !isGen(p.Type()) {
+				continue
+			}
+			n++
+			used := false
+			ir.Walk(f.N.Func(fn), func(t ir.Term) bool {
+				if pr, ok := t.(*ir.Param); ok && pr.Idx == i {
+					used = true
+				}
+				return !used
+			})
+			if why, ok := generatorExceptions[fn.Name]; ok && !used {
+				r.OK("C02.c2", fn.Name, "generator "+p.Name(), c.Pos(f.M.Fset, fn.Decl.Pos()), "frozen exception: "+why)
+				continue
+			}
+			r.Check(used, "C02.c2", fn.Name, "generator "+p.Name(), c.Pos(f.M.Fset, fn.Decl.Pos()),
+				"the type-variable generator is applied or passed on",
+				"the type-variable generator "+p.Name()+" is received but never applied nor passed on: this instantiation no longer draws fresh inference variables, so two uses inside one definition share their variables (two literals of a generic record at different types are unified with each other)")
+		}
+	}
+	r.Unit("generator_parameters", n)
+	if n < 10 {
+		r.Undecided("C02.c2", "-", "sites", "fc", sprintf("%d generator parameters found; at least 10 were confirmed by hand", n))
+	}
+}
